@@ -231,10 +231,20 @@ def main(argv=None):
     sig = (v["oracle"], v["detail"][:80])
     path = write_replay(profile, d, events)
     fresh = replay_in_fresh_process(path)
+    attempts = 1
+    while ((fresh is None or fresh.get("oracle") != v["oracle"])
+           and attempts < profile.fresh_replay_attempts):
+      # C30 only: what is observed is itself a difference between processes (it depends on memory
+      # addresses as well as on the hash seed), so one fresh process may happen to agree.
+      fresh = replay_in_fresh_process(path)
+      attempts += 1
     if fresh is None or fresh.get("oracle") != v["oracle"]:
-      print("HARNESS-NONDETERMINISM fresh-process replay of %s gave %s" % (path, fresh))
-      exit_code = max(exit_code, 2)
-      continue
+      if not profile.observed_difference_is_witness:
+        print("HARNESS-NONDETERMINISM fresh-process replay of %s gave %s" % (path, fresh))
+        exit_code = max(exit_code, 2)
+        continue
+      print("NOTE %s: the recorded difference between processes did not recur in %d fresh "
+            "replays; the two differing replies are in the replay file" % (path, attempts))
     violations_reported += 1
     reported.append({"run_index": d["run_index"], "seed": d["seed"], "oracle": v["oracle"],
                      "detail": v["detail"][:300], "replay": path, "events": len(events)})
